@@ -9,7 +9,7 @@ for name in "$@"; do
   W=/tmp/sr-$name
   git -C /repo worktree remove --force "$W" >/dev/null 2>&1
   git -C /repo worktree add -q --detach "$W" HEAD || { echo "$name: worktree failed"; continue; }
-  T=$(grep -oE "func (TestSeed2?C[0-9]+_[0-9]+)" "$S/demo_test.go" | head -1 | awk '{print $2}')
+  T=$(grep -oE "func (TestSeed[0-9]?C[0-9]+_[0-9]+)" "$S/demo_test.go" | head -1 | awk '{print $2}')
   RACE=""
   grep -qi "\-race" "$S/notes.md" 2>/dev/null && python3 -c "import json,sys; sys.exit(0 if json.load(open('$S/meta.json'))['confirmed'].get('race_flag') else 1)" && RACE="-race"
   cp "$S/demo_test.go" "$W/test/zz_seed_demo_test.go"
